@@ -20,7 +20,7 @@ func (p *Parser) parseMatchAgainst(matchFunc *ast.FunctionCall) (ast.Expression,
 		return nil, goerrors.RecursionDepthLimitError(
 			p.depth,
 			MaxRecursionDepth,
-			models.Location{Line: 0, Column: 0},
+			p.currentLocation(),
 			"",
 		)
 	}
